@@ -13,6 +13,7 @@ func init() {
 			c.guard("RW.BRANCHCTX", r.ruleBranchCtx)
 			c.guard("RW.SIG", r.ruleSig)
 			c.guard("RW.ORACLE", r.ruleOracles)
+			c.guard("RW.RECOVER", r.ruleRecover)
 			// range over func / pointer-to-array / type parameter: rejected or left native, never lowered
 			// through an iterator that does not exist for them
 			c.guard("RW.RANGEDISPATCH", r.ruleRangeDispatch)
@@ -390,6 +391,8 @@ func init() {
 			// the loop is built); which map entry comes next is decided when it is demanded (no snapshot)
 			c.guard("OPT.ETA", r.ruleOptEta)
 			c.guard("ITER.MAP", s.ruleIterMap)
+			// ... and which channel element comes next is received when it is demanded (no read-ahead)
+			c.guard("ITER.CHAN", s.ruleIterChan)
 			c.guard("RW.CLOSE", r.ruleCloseContract)
 			c.keep(func(o Obligation) bool {
 				switch o.Rule {
@@ -428,6 +431,7 @@ func init() {
 			c.guard("RW.DISPATCH", r.ruleCover)
 			c.guard("RW.FACTORY", r.ruleFactory)
 			c.guard("RW.TERM", r.ruleTerm)
+			c.guard("RW.TERM", r.ruleTermPanicSites)
 			c.guard("RW.KINDTAB", r.ruleKindTab)
 			c.guard("RW.CLOSE", r.ruleCloseContract)
 			c.guard("RW.CLOSE", r.ruleCloseNil)
@@ -486,7 +490,7 @@ func init() {
 func init() {
 	register(propSpec{
 		ID:          "C15",
-		Explanation: "Determinism is decided as the absence of every source of run-to-run or context dependence in the output path: DET.MAPRANGE (no range over a map anywhere in package rewriter / cmd/cogen), DET.SOURCES (no call into time, math/rand, crypto/rand, os.Getpid/Hostname/MkdirTemp/Getenv), RW.FILEPASSES (import names, generator sets and collected comments are re-initialised for every file before the first pass; passes in fixed order), DET.GENSYM (the unique-name counter advances by one per temporary, names use the new value, and the counter lives in an object allocated once per file or is reset per file), DET.TMP (the intermediate directory is emptied before use and its removal deferred, so outputs of earlier runs cannot reach the result), RW.TMPL.RANGE (iterator temporaries come from gensym). File order from the loader and go/printer are trusted.",
+		Explanation: "Determinism is decided as the absence of every source of run-to-run or context dependence in the output path: OPT.MEMO (no table outliving a call is filled with a value that its key does not determine: no verdict of one file is reused for another), DET.MAPRANGE (no range over a map anywhere in package rewriter / cmd/cogen), DET.SOURCES (no call into time, math/rand, crypto/rand, os.Getpid/Hostname/MkdirTemp/Getenv), RW.FILEPASSES (import names, generator sets and collected comments are re-initialised for every file before the first pass; passes in fixed order), DET.GENSYM (the unique-name counter advances by one per temporary, names use the new value, and the counter lives in an object allocated once per file or is reset per file), DET.TMP (the intermediate directory is emptied before use and its removal deferred, so outputs of earlier runs cannot reach the result), RW.TMPL.RANGE (iterator temporaries come from gensym). File order from the loader and go/printer are trusted.",
 		Trusted:     []string{"go/packages file order", "go/printer", "go/ssa construction"},
 		Run: func(c *Ctx) {
 			r := newRwRT(c)
@@ -494,6 +498,7 @@ func init() {
 			c.guard("RW.FILEPASSES", r.ruleFilePasses)
 			c.guard("RW.ALLFILES", func() { r.ruleAllFiles(false) })
 			c.guard("DET.GENSYM", r.ruleGensym)
+			c.guard("OPT.MEMO", r.ruleMemo)
 			c.guard("DET.TMP", r.ruleTmpDir)
 			c.guard("RW.TMPL.RANGE", r.ruleTmplRange)
 			// "regardless of outputs of earlier runs present on disk": the outputs carry the negation of the very tag
